@@ -6,6 +6,7 @@ in fasta format.
 package variants
 
 import (
+	"github.com/virus-evolution/gofasta/pkg/verifhook"
 	"bufio"
 	"bytes"
 	"errors"
@@ -379,6 +380,7 @@ func RegionsFromGFF(anno gff.GFF, refSeqDegapped string) ([]Region, []int, error
 
 	tempcds := make([]Region, 0)
 	for _, f := range IDed {
+		verifhook.Note("variants.RegionsFromGFF", f[0].Attributes["ID"][0])
 		r, err := CDSRegion2fromGFF(f, refSeqDegapped)
 		if err != nil {
 			return []Region{}, []int{}, err
@@ -639,6 +641,7 @@ func getVariants(ref fastaio.EncodedFastaRecord, cdsregions []Region, intregions
 			break
 		}
 
+		verifhook.Jitter("variants.getVariants", AS.Idx)
 		cVariants <- AS
 	}
 }
@@ -828,6 +831,7 @@ func AggregateWriteVariants(w io.Writer, start, end int, appendSNP bool, thresho
 
 	order := make([]Variant, 0)
 	for k := range propMap {
+		verifhook.Note("variants.AggregateWriteVariants", k.Representation)
 		order = append(order, k)
 	}
 
